@@ -25,6 +25,7 @@ type Resp struct {
 	Doc    string   `json:"doc"`
 	JSON   any      `json:"json,omitempty"` // explicit document ({{host}} placeholders in strings)
 	Twin   string   `json:"twin,omitempty"` // status -1 only: the non-https URL has host and path of this (https) id
+	Extra  []string `json:"extra,omitempty"` // further header lines, as they are
 }
 
 type World struct {
@@ -141,6 +142,7 @@ func (w *World) Render(id string, r Resp, rng *rand.Rand) []byte {
 		name := pick(rng, []string{"Location", "location", "LOCATION"})
 		headers = append(headers, name+": "+w.location(id, r.Loc, rng))
 	}
+	headers = append(headers, r.Extra...)
 	extra := []string{"Server: verifsim", "Date: Sat, 26 Sep 2026 00:00:00 GMT", "X-Content-Type: text/html", "Vary: Accept",
 		"Cache-Control: max-age=0", "Set-Cookie: track=1", "Content-Location: https://elsewhere.example/x", "Link: <https://x.example/>; rel=\"alternate\"; type=\"text/html\""}
 	for k := rng.Intn(4); k > 0; k-- {
